@@ -28,11 +28,17 @@ type zxTable struct {
 	name        string
 	fields      core.Fields
 	partitionBy []string
+	groupBy     []core.GroupBy // the table's own GROUP BY dimensions (nil: keeps every dimension)
 	keys        []bytemap.ByteMap
 	vals        []core.Vals
 }
 
-func (t *zxTable) GetGroupBy() []core.GroupBy    { return []core.GroupBy{} }
+func (t *zxTable) GetGroupBy() []core.GroupBy {
+	if t.groupBy != nil {
+		return t.groupBy
+	}
+	return []core.GroupBy{}
+}
 func (t *zxTable) GetResolution() time.Duration { return zxRes }
 func (t *zxTable) GetAsOf() time.Time           { return zxAsOf }
 func (t *zxTable) GetUntil() time.Time          { return zxUntil }
@@ -66,7 +72,7 @@ func zxOpts(tables map[string]*zxTable) *Opts {
 				return nil, err
 			}
 			// project the stored columns onto the included fields, by field identity
-			out := &zxTable{name: t.name, fields: included, partitionBy: t.partitionBy, keys: t.keys}
+			out := &zxTable{name: t.name, fields: included, partitionBy: t.partitionBy, groupBy: t.groupBy, keys: t.keys}
 			for _, vs := range t.vals {
 				var pv core.Vals
 				for _, f := range included {
